@@ -206,6 +206,45 @@ func genFunction(prog *ssa.Program, cs *Contracts, fn *ssa.Function, fc *FuncCon
 			c.note("lemma by induction " + ind.Label + " (base and step are discharged as separate obligations; the induction principle itself is meta-level)")
 		}
 	}
+	// explicit ground instances of induction lemmas: "instantiate LABEL(e1, ..., en)"
+	for _, inst := range fc.Instantiate {
+		i := strings.Index(inst, "(")
+		if i < 0 || !strings.HasSuffix(inst, ")") {
+			panic(vcErr("bad instantiate directive %q", inst))
+		}
+		label := strings.TrimSpace(inst[:i])
+		var ind *Induct
+		for _, x := range cs.Inducts {
+			if x.Label == label {
+				ind = x
+			}
+		}
+		if ind == nil {
+			panic(vcErr("instantiate: no induction lemma %s", label))
+		}
+		args := splitTopLevel(inst[i+1 : len(inst)-1])
+		if len(args) != len(ind.Vars)+1 {
+			panic(vcErr("instantiate %s: %d arguments, the lemma has %d variables plus the induction variable", label, len(args), len(ind.Vars)))
+		}
+		bound := map[string]Val{}
+		for k, a := range args {
+			v := c.eval(envR, parseExprSrc(a, fc.File, fc.Line))
+			if k < len(ind.Vars) {
+				if strings.HasPrefix(ind.Vars[k][1], "[]") {
+					v = c.toSeq(envR, v)
+				}
+				bound[ind.Vars[k][0]] = v
+			} else {
+				bound[ind.N] = v
+			}
+		}
+		e2 := &Env{c: c, st: st0, names: map[string]Val{}, bound: bound}
+		c.inQuant++
+		body := c.evalBool(e2, ind.Body)
+		c.inQuant--
+		c.assume(tTrue, implies(app(SBool, ">=", bound[ind.N].(T), intLit(0)), body))
+		c.note("instance of the induction lemma " + label + " (base and step are discharged as separate obligations)")
+	}
 	// global axioms
 	for _, ax := range cs.Axioms {
 		c.assume(tTrue, c.evalBool(&Env{c: c, st: st0, names: map[string]Val{}}, ax.Expr))
@@ -267,6 +306,10 @@ func genFunction(prog *ssa.Program, cs *Contracts, fn *ssa.Function, fc *FuncCon
 					}
 					o.Values = vals
 					o.Replay = plan
+				}
+				if fc.ChainEnsures {
+					// proved as its own obligation; later postconditions may build on it
+					c.assume(rst.reach, o.Goal)
 				}
 			}
 		}
@@ -749,13 +792,56 @@ func (c *Ctx) inductFormula(ind *Induct, mode string) T {
 		e2.bound[ind.N] = t
 		return c.evalBool(&e2, ind.Body)
 	}
+	// "using LABEL(e1, ..., ek)": an instance of an earlier lemma on this lemma's
+	// own variables, available in the base and the step case
+	helpers := func(nv T) T {
+		var hs []T
+		for _, u := range ind.Using {
+			i := strings.Index(u, "(")
+			if i < 0 {
+				continue
+			}
+			label := strings.TrimSpace(u[:i])
+			var prev *Induct
+			for _, x := range c.cs.Inducts {
+				if x == ind {
+					break
+				}
+				if x.Label == label {
+					prev = x
+				}
+			}
+			if prev == nil {
+				panic(vcErr("induct %s: using %s: no earlier lemma of that name", ind.Label, label))
+			}
+			args := splitTopLevel(u[i+1 : len(u)-1])
+			if len(args) != len(prev.Vars)+1 {
+				panic(vcErr("induct %s: using %s: wrong number of arguments", ind.Label, label))
+			}
+			e2 := *env
+			e2.bound = copyMap(env.bound)
+			e2.bound[ind.N] = nv
+			b2 := map[string]Val{}
+			for k, a := range args {
+				v := c.eval(&e2, parseExprSrc(a, ind.File, ind.Line))
+				if k < len(prev.Vars) {
+					b2[prev.Vars[k][0]] = v
+				} else {
+					b2[prev.N] = v
+				}
+			}
+			e3 := &Env{c: c, st: st, names: map[string]Val{}, bound: b2}
+			hs = append(hs, implies(app(SBool, ">=", b2[prev.N].(T), intLit(0)), c.evalBool(e3, prev.Body)))
+		}
+		return and(hs...)
+	}
 	var f T
 	switch mode {
 	case "base":
-		f = at(intLit(0))
+		f = implies(helpers(intLit(0)), at(intLit(0)))
 	case "step":
 		binders = append(binders, fmt.Sprintf("(%s Int)", n.S))
-		f = implies(and(app(SBool, ">=", n, intLit(0)), at(n)), at(app(SInt, "+", n, intLit(1))))
+		f = implies(and(app(SBool, ">=", n, intLit(0)), at(n), helpers(n)), at(app(SInt, "+", n, intLit(1))))
 	default: // the conclusion, used as an axiom elsewhere
 		binders = append(binders, fmt.Sprintf("(%s Int)", n.S))
 		body := at(n)
@@ -791,10 +877,14 @@ func (c *Ctx) inductFormula(ind *Induct, mode string) T {
 }
 
 // genInducts: base and step obligations of the induction lemmas.
+// usedLemmas: labels of lemmas that the functions of the running check rely on
+// (set by cmdCheck); they are re-proved in that check whatever their label.
+var usedLemmas map[string]bool
+
 func genInducts(prog *ssa.Program, cs *Contracts, id string) *FuncReport {
 	rep := &FuncReport{Func: "lemma", Key: "lemma", Props: map[string]bool{}}
 	for _, ind := range cs.Inducts {
-		serves := id == ""
+		serves := id == "" || usedLemmas[ind.Label]
 		for _, p := range ind.Props {
 			if p == id {
 				serves = true
@@ -817,6 +907,16 @@ func genInducts(prog *ssa.Program, cs *Contracts, id string) *FuncReport {
 					}
 				}()
 				st := &State{reach: tTrue, heaps: map[string]T{}, cells: map[string]Val{}, alloc: intLit(1)}
+				// conclusions of earlier lemmas named by "using" (earlier in the
+				// file order only, so there is no circularity)
+				for _, prev := range cs.Inducts {
+					if prev == ind {
+						break
+					}
+					if contains(ind.Using, prev.Label) {
+						c.emit("(assert " + c.inductFormula(prev, "concl").S + ")")
+					}
+				}
 				g := c.inductFormula(ind, mode)
 				c.oblige(st, "lemma", ind.Label+"."+mode, ind.Props, g, token.NoPos, "induction "+mode+": "+ind.Src)
 			}()
@@ -892,4 +992,27 @@ func (c *Ctx) setupFrame(fr *Frame, env *Env, entryCut int, entryAlloc T) {
 	c.restore(snap)
 	c.writeLog = saveLog
 	c.frameActive = !c.frameAll
+}
+
+// splitTopLevel splits s at commas that are not nested in parentheses or brackets.
+func splitTopLevel(s string) []string {
+	var out []string
+	depth, start := 0, 0
+	for i, ch := range s {
+		switch ch {
+		case '(', '[':
+			depth++
+		case ')', ']':
+			depth--
+		case ',':
+			if depth == 0 {
+				out = append(out, strings.TrimSpace(s[start:i]))
+				start = i + 1
+			}
+		}
+	}
+	if strings.TrimSpace(s[start:]) != "" {
+		out = append(out, strings.TrimSpace(s[start:]))
+	}
+	return out
 }
